@@ -197,6 +197,7 @@ type requiredCall struct {
 	argSuffix      string
 	guard          []string
 	noOther        bool
+	only           bool // no other call of the callee in fn takes a value of different provenance (it would overwrite this one)
 }
 
 func checkRequiredCalls(c *Ctx, r *Report, calls []requiredCall) {
@@ -217,6 +218,7 @@ func checkRequiredCalls(c *Ctx, r *Report, calls []requiredCall) {
 		defs.scan(f.Decl.Body)
 		pc := &pathCtx{info: info, defs: defs, root: f.Decl.Body}
 		var sites []*ast.CallExpr
+		var others []string
 		ast.Inspect(f.Decl.Body, func(n ast.Node) bool {
 			call, ok := n.(*ast.CallExpr)
 			if !ok {
@@ -228,6 +230,9 @@ func checkRequiredCalls(c *Ctx, r *Report, calls []requiredCall) {
 			}
 			if rc.arg >= 0 {
 				if rc.arg >= len(call.Args) || !strings.HasSuffix(normParams(pc.path(call.Args[rc.arg])), rc.argSuffix) {
+					if rc.arg < len(call.Args) {
+						others = append(others, fmt.Sprintf("%s(%s) at %s", rc.callee, pc.path(call.Args[rc.arg]), c.pos(call.Pos())))
+					}
 					return true
 				}
 			}
@@ -236,6 +241,10 @@ func checkRequiredCalls(c *Ctx, r *Report, calls []requiredCall) {
 		})
 		if len(sites) == 0 {
 			r.Fail(rc.clause, "R1 MUST-FLOW", key, c.pos(f.Decl.Pos()), fmt.Sprintf("%s: %s no longer calls %s(%s)", rc.reason, rc.fn, rc.callee, rc.argSuffix))
+			continue
+		}
+		if rc.only && len(others) > 0 {
+			r.Fail(rc.clause, "R1 MUST-FLOW", key, c.pos(f.Decl.Pos()), fmt.Sprintf("%s: %s also calls %s — the value of the required call can be replaced by one of another origin", rc.reason, rc.fn, strings.Join(others, ", ")))
 			continue
 		}
 		bad, okOne := "", false
